@@ -23,8 +23,8 @@ RULE = ("fresh interpreter per PYTHONHASHSEED in 0..31 (quick) / 0..95 (thorough
         "equal-but-different values, documents with 7+ dependency names, "
         "duplicate head_content, HTMLTextDocument extraction of 5 serialisations with repeats, JSX "
         "component, attribute merges, resolution + serialisation), started with item (seed mod 14) as "
-        "the very first library action of the process, then rendered in every permutation of its first 5 (quick: 120) / 7 (thorough: "
-        "5040) items; all ordered pairs of 21 head_content payloads. Non-trivial = (seed, order) "
+        "the very first library action of the process, then rendered in every permutation of its first 5 (quick: 120) / 6 (thorough: "
+        "720) items; all ordered pairs of 21 head_content payloads. Non-trivial = (seed, order) "
         "pairs other than the first. 2^32 seeds cannot be enumerated: the seed range is the bound.")
 ASSUMPTIONS = [
     "a set- or hash()-based regression differs between two seeds with overwhelming probability; the "
@@ -45,7 +45,7 @@ def run_child(seed, nperm):
 
 def make_run(tier):
     seeds = list(range(32)) if tier == "quick" else list(range(96))
-    nperm = 5 if tier == "quick" else 7
+    nperm = 5 if tier == "quick" else 6
 
     def run(ctx):
         t = time.time()
